@@ -39,6 +39,8 @@ func mergeProfile(r *rand.Rand) (gen.Profile, gen.DataCfg) {
 	p.SharedRoots = r.Intn(3) == 0
 	p.NodeLookalike = 0.3
 	p.SpreadEnum = r.Intn(3) == 0
+	p.SplitValue = 0.3
+	p.BareEntity = 0.3
 	return p, gen.DataCfg{Seed: 1, ListMax: 2, Pool: 3}
 }
 
